@@ -89,13 +89,13 @@ def run(ctx):
         ctx.count("cycles")
         ctx.count("evaluations")
         ctx.distinct(("cycle", decl_label(d)), len(terms) >= 2 or True)
-        worst.append((float(err), decl_label(d)))
+        worst.append((core.sf(err), decl_label(d)))
         if idx in orc.root_mismatch:
             ctx.violation(f"C09:dimensionally-inconsistent-declaration:{pair_key(d)}", f"'{decl_label(d)}' relates units of different root content", {"decl": decl_label(d)})
         elif err > TOL * degree:
             ctx.violation(f"C09:inconsistent-cycle:{pair_key(d)}",
-                          f"'{decl_label(d)}' disagrees with the chain of other declarations by a factor {float(r)!r} (tolerance {float(TOL * degree):g})",
-                          {"decl": decl_label(d), "ratio_declared_over_implied": float(r)})
+                          f"'{decl_label(d)}' disagrees with the chain of other declarations by a factor {core.sf(r)!r} (tolerance {core.sf(TOL * degree):g})",
+                          {"decl": decl_label(d), "ratio_declared_over_implied": core.sf(r)})
     worst.sort(reverse=True)
     ctx.extra["worst_cycle_residuals"] = [f"{e:.3g}  {l}" for e, l in worst[:8]]
     ctx.count("spanning_tree_declarations", len(orc.tree))
